@@ -3,7 +3,7 @@
   Two caches: S (server side) and C (client side). Strings travel as tokens (`~` = empty); a virtual
   clock `now` (seconds) starts at 1000.
     sstore <sid> key=<n|none> crypto=<s> user=<s> auth=<0|1> exp=<never|n> lease=<n>
-    sresume <sid> want=<0|1>         -> reply=<none|sidNotFound|authorized> [user= auth= enc=]
+    sresume <sid> want=<0|1> [req=1] -> reply=<none|sidNotFound|authorized> [user= auth= enc=]   (req=1: the server's policy REQUIRES authentication)
     sexpire <sid> | srenew <sid> | sinvalidate <sid> | sgc | tick <n>
     ostore <sid> ... | oinvalidate <sid> | oexpire <sid>     (the server's own isolated cache; `sresume` consults it first)
     chs tag=<s> addr=<s> cmd=<s> answer=<authorized|sidNotFound|broken|other> full=<sid>:<key>:<user>:<auth>:<cmd,cmd>
@@ -52,7 +52,7 @@ def step (st : St) (toks : List String) : St × String :=
   | "sresume" :: sid :: _ =>
     match g "want" with
     | some w =>
-      let (o', c', reply, out) := serverResume2 st.o st.s st.now (chars sid) (w == "1") st.nonce
+      let (o', c', reply, out) := serverResume2 st.o st.s st.now (chars sid) (w == "1") st.nonce (g "req" == some "1")
       let rs := match reply with
         | .none => "none" | .sidNotFound => "sidNotFound" | .authorized _ => "authorized"
       let os := match out with
@@ -98,7 +98,7 @@ def step (st : St) (toks : List String) : St × String :=
     | some tg, some ad, some cm, some an, some fu =>
       let answer : ServerAnswer := if an == "authorized" then .authorized else if an == "sidNotFound" then .sidNotFound
         else if an == "broken" then .broken else .other an
-      let (c1, stp) := clientTry st.c st.now (chars tg) (chars ad) (chars cm) answer
+      let (c1, stp) := clientTry st.c st.now (chars tg) (chars ad) (chars cm) answer (g "req" == some "1")
       match stp with
       | .resumed sid key user auth =>
         ({ st with c := c1 }, s!"ok resumed sid={shows sid} keyed={b01 key.isSome} user={if user == "" then "~" else user} auth={b01 auth}")
@@ -118,7 +118,7 @@ def step (st : St) (toks : List String) : St × String :=
     | some sid, some an =>
       let answer : ServerAnswer := if an == "authorized" then .authorized else if an == "sidNotFound" then .sidNotFound
         else if an == "broken" then .broken else .other an
-      let (c1, stp) := clientById st.c st.now (chars sid) answer
+      let (c1, stp) := clientById st.c st.now (chars sid) answer (g "req" == some "1")
       match stp with
       | .resumed sid _ _ _ => ({ st with c := c1 }, s!"ok resumed sid={shows sid}")
       | .resumeFailed sid => ({ st with c := c1 }, s!"ok resume-failed sid={shows sid}")
